@@ -14,33 +14,55 @@ From incr Require Import Base Heap HeapSpec HeapProofs EngineDefs Engine EngineR
 Local Ltac inv H := inversion H; subst; clear H.
 Local Arguments valueOf : simpl never.
 
-(** * 1. Plain templates *)
+(** * 1. Templates (nested binds allowed) *)
 Fixpoint tplain (root : bool) (e : texp) : bool :=
   match e with
   | TRet _ | TX | TOuter _ => true
   | TMap _ e | TCut _ e => tplain false e
   | TMap2 _ e1 e2 => tplain false e1 && tplain false e2
-  | TBind _ _ => false
+  | TBind cases e => forallb (tplain true) cases && tplain false e
   | TNil => root
   end.
 
+Lemma tplain_root e : tplain false e = true -> tplain true e = true.
+Proof. destruct e; simpl; auto. Qed.
+
 Fixpoint tdepth (e : texp) : nat :=
   match e with
-  | TMap _ e | TCut _ e => S (tdepth e)
+  | TMap _ e | TCut _ e | TBind _ e => S (tdepth e)
   | TMap2 _ e1 e2 => S (Nat.max (tdepth e1) (tdepth e2))
   | _ => 1
   end.
 
-(** what [inst] (and [newNode] in scope [b]) does to the state *)
+(** properties of templates inherited by sub-templates and nested case tables *)
+Definition subclosed (Q : texp -> bool) : Prop :=
+  (forall f e, Q (TMap f e) = true -> Q e = true) /\
+  (forall f e1 e2, Q (TMap2 f e1 e2) = true -> Q e1 = true /\ Q e2 = true) /\
+  (forall c e, Q (TCut c e) = true -> Q e = true) /\
+  (forall cs e, Q (TBind cs e) = true -> forallb Q cs = true /\ Q e = true).
+
+Lemma subclosed_tplain : subclosed (tplain true).
+Proof.
+  split; [|split; [|split]].
+  - intros f e H. simpl in H. apply tplain_root, H.
+  - intros f e1 e2 H. simpl in H. apply andb_true_iff in H as [H1 H2]. split; apply tplain_root; assumption.
+  - intros c e H. simpl in H. apply tplain_root, H.
+  - intros cs e H. simpl in H. apply andb_true_iff in H as [H1 H2]. split; [exact H1|apply tplain_root, H2].
+Qed.
+
+(** what [inst] (and [newNode] / [newBind] in scope [b]) does to the state *)
 Record instF (b : nat) (s s' : state) : Prop := {
   if_next : (next s <= next s')%nat;
   if_old : forall m, (m < next s \/ next s' <= m)%nat -> nodes s' !! m = nodes s !! m;
   if_new : forall m, (next s <= m < next s')%nat ->
-    exists k d v, nodes s' !! m = Some (fresh_node k d (Some b) v) /\ isBindKind k = false /\
-                  staleK k = true /\ shape_node m (fresh_node k d (Some b) v) = true;
-  if_bd : forall b', b' <> b -> binds s' !! b' = binds s !! b';
+    exists k d v, nodes s' !! m = Some (fresh_node k d (Some b) v) /\
+                  staleK k = true /\ shape_node m (fresh_node k d (Some b) v) = true /\
+                  (forall b1, k = KBindMain b1 -> b1 <> b /\ is_Some (binds s' !! b1));
+  if_bd : forall b', b' <> b -> binds s' !! b' = binds s !! b' \/
+                                (binds s !! b' = None /\ (next s <= b' < next s')%nat);
   if_bdb : b_lhs (bd s' b) = b_lhs (bd s b) /\ b_rhs (bd s' b) = b_rhs (bd s b) /\
            b_cases (bd s' b) = b_cases (bd s b) /\ b_memo (bd s' b) = b_memo (bd s b) /\
+           b_main (bd s' b) = b_main (bd s b) /\
            (is_Some (binds s' !! b) <-> is_Some (binds s !! b));
   if_fields : reg s' = reg s /\ obs s' = obs s /\ heap s' = heap s /\ adj s' = adj s /\ invq s' = invq s /\
               stabNum s' = stabNum s /\ status s' = status s /\ numNodes s' = numNodes s /\
@@ -54,7 +76,7 @@ Proof.
   - lia.
   - reflexivity.
   - intros m Hm. lia.
-  - reflexivity.
+  - auto.
   - repeat split; auto.
   - repeat split.
 Qed.
@@ -65,10 +87,15 @@ Proof.
   - lia.
   - intros m Hm. rewrite (if_old _ _ _ B) by lia. apply (if_old _ _ _ A). lia.
   - intros m Hm. destruct (decide (m < next s2)%nat) as [Hlt|Hge].
-    + rewrite (if_old _ _ _ B) by lia. apply (if_new _ _ _ A). lia.
+    + rewrite (if_old _ _ _ B) by lia. destruct (if_new _ _ _ A m ltac:(lia)) as (k & d & v & E & Hs & Hsh & Hb1).
+      exists k, d, v. split; [exact E|]. split; [exact Hs|]. split; [exact Hsh|].
+      intros b1 Ek. destruct (Hb1 b1 Ek) as [Hne Hsome]. split; [exact Hne|].
+      destruct (if_bd _ _ _ B b1 Hne) as [->|[E0 _]]; [exact Hsome|]. rewrite E0 in Hsome. destruct Hsome; discriminate.
     + apply (if_new _ _ _ B). lia.
-  - intros b' Hb. rewrite (if_bd _ _ _ B b' Hb). apply (if_bd _ _ _ A b' Hb).
-  - destruct (if_bdb _ _ _ A) as (?&?&?&?&?), (if_bdb _ _ _ B) as (?&?&?&?&?). repeat split; try congruence; tauto.
+  - intros b' Hb. destruct (if_bd _ _ _ B b' Hb) as [E2|[E2 R2]].
+    + rewrite E2. destruct (if_bd _ _ _ A b' Hb) as [E1|[E1 R1]]; [auto|right; split; [exact E1|lia]].
+    + destruct (if_bd _ _ _ A b' Hb) as [E1|[E1 R1]]; [right; split; [congruence|lia]|right; split; [exact E1|lia]].
+  - destruct (if_bdb _ _ _ A) as (?&?&?&?&?&?), (if_bdb _ _ _ B) as (?&?&?&?&?&?). repeat split; try congruence; tauto.
   - destruct (if_fields _ _ _ A) as (?&?&?&?&?&?&?&?&?&?&?&?&?), (if_fields _ _ _ B) as (?&?&?&?&?&?&?&?&?&?&?&?&?).
     repeat split; congruence.
 Qed.
@@ -84,8 +111,9 @@ Proof.
   - rewrite next_newNode. lia.
   - intros m Hm. rewrite nodes_newNode, next_newNode in *. rewrite lookup_insert_ne by lia. reflexivity.
   - intros m Hm. rewrite next_newNode in Hm. assert (m = next s) as -> by lia.
-    exists k, d, v. rewrite nodes_newNode, lookup_insert. auto.
-  - intros b' Hb. rewrite binds_newNode, lookup_alter_ne by congruence. reflexivity.
+    exists k, d, v. rewrite nodes_newNode, lookup_insert. split; [reflexivity|]. split; [exact Hst|]. split; [exact Hsh|].
+    intros b1 ->. discriminate Hk.
+  - intros b' Hb. left. rewrite binds_newNode, lookup_alter_ne by congruence. reflexivity.
   - unfold bd. rewrite binds_newNode, lookup_alter. destruct (binds s !! b) as [r|]; simpl.
     + repeat split; eauto.
     + repeat split; intros [? ?]; discriminate.
@@ -94,9 +122,59 @@ Proof.
     repeat split.
 Qed.
 
-(* the result of [inst] on a plain template: a node, unless the template is [TNil] *)
-Definition rootOf (e : texp) (r : option nid) : Prop :=
-  match e with TNil => r = None | _ => is_Some r end.
+(* a nested bind: the record, the lhs-change node and the main node *)
+Lemma instF_newBind b s cases a :
+  b <> next s -> binds s !! (next s) = None ->
+  instF b s (newBind s cases a (Some b)).1 /\
+  (newBind s cases a (Some b)).2 = S (next s) /\
+  nd (newBind s cases a (Some b)).1 (S (next s)) = fresh_node (KBindMain (next s)) [next s] (Some b) 0 /\
+  bd (newBind s cases a (Some b)).1 (next s) = mkBind a (next s) (S (next s)) None [] cases 0%nat false [] /\
+  next (newBind s cases a (Some b)).1 = S (S (next s)) /\
+  (binds s !! S (next s) = None -> b <> S (next s) -> binds (newBind s cases a (Some b)).1 !! S (next s) = None).
+Proof.
+  intros Hbn Hfresh. unfold newBind. rewrite newBindWith_snd. rewrite newBindWith_eq.
+  set (rec := mkBind a (next s) (S (next s)) None [] cases 0%nat false []).
+  set (s0 := s <| binds := <[next s := rec]> (binds s) |>).
+  set (s1 := (newNode s0 (KBindLhs (next s)) [a] (Some b) 0).1).
+  set (s2 := (newNode s1 (KBindMain (next s)) [next s] (Some b) 0).1).
+  assert (Hn1 : next s1 = S (next s)) by (unfold s1; rewrite next_newNode; reflexivity).
+  assert (Hn2 : next s2 = S (S (next s))) by (unfold s2; rewrite next_newNode, Hn1; reflexivity).
+  assert (Hnodes : nodes s2 = <[S (next s) := fresh_node (KBindMain (next s)) [next s] (Some b) 0]>
+                                (<[next s := fresh_node (KBindLhs (next s)) [a] (Some b) 0]> (nodes s))).
+  { unfold s2. rewrite nodes_newNode, Hn1. unfold s1. rewrite nodes_newNode. reflexivity. }
+  assert (Hbinds : binds s2 = alter (set b_rhsNodes (fun l => l ++ [S (next s)])) b
+                                (alter (set b_rhsNodes (fun l => l ++ [next s])) b (<[next s := rec]> (binds s)))).
+  { unfold s2. rewrite binds_newNode, Hn1. unfold s1. rewrite binds_newNode. reflexivity. }
+  assert (Hbd1 : binds s2 !! (next s) = Some rec).
+  { rewrite Hbinds, !lookup_alter_ne by congruence. apply lookup_insert. }
+  split; [|split; [reflexivity|split; [|split; [|split; [exact Hn2|]]]]].
+  4:{ intros Hf2 Hb2. rewrite Hbinds, !lookup_alter_ne by congruence. rewrite lookup_insert_ne by lia. exact Hf2. }
+  - constructor.
+    + rewrite Hn2. lia.
+    + intros m Hm. rewrite Hn2 in Hm. rewrite Hnodes, !lookup_insert_ne by lia. reflexivity.
+    + intros m Hm. rewrite Hn2 in Hm. destruct (decide (m = S (next s))) as [->|Hne].
+      * exists (KBindMain (next s)), [next s], 0. rewrite Hnodes, lookup_insert. split; [reflexivity|].
+        split; [reflexivity|]. split; [reflexivity|]. intros b1 [= <-]. split; [congruence|]. rewrite Hbd1. eauto.
+      * assert (m = next s) as -> by lia.
+        exists (KBindLhs (next s)), [a], 0. rewrite Hnodes, lookup_insert_ne, lookup_insert by lia.
+        split; [reflexivity|]. split; [reflexivity|]. split; [reflexivity|]. intros b1 Hk. discriminate Hk.
+    + intros b' Hb. rewrite Hbinds, !lookup_alter_ne by congruence. destruct (decide (b' = next s)) as [->|Hne].
+      * right. split; [exact Hfresh|]. rewrite Hn2. lia.
+      * left. apply lookup_insert_ne. congruence.
+    + unfold bd. rewrite Hbinds, !lookup_alter, lookup_insert_ne by congruence. destruct (binds s !! b) as [r|]; simpl.
+      * repeat split; eauto.
+      * repeat split; intros [? ?]; discriminate.
+    + unfold s2. rewrite reg_newNode, obs_newNode, heap_newNode, adj_newNode, invq_newNode, stabNum_newNode, status_newNode,
+        numNodes_newNode, setDuring_newNode, setRemoved_newNode, handlers_newNode, maxHeight_newNode, log_newNode.
+      unfold s1. rewrite reg_newNode, obs_newNode, heap_newNode, adj_newNode, invq_newNode, stabNum_newNode, status_newNode,
+        numNodes_newNode, setDuring_newNode, setRemoved_newNode, handlers_newNode, maxHeight_newNode, log_newNode.
+      repeat split.
+  - unfold nd. rewrite Hnodes, lookup_insert. reflexivity.
+  - unfold bd. rewrite Hbd1. reflexivity.
+Qed.
+
+Lemma next_newBind s cases a sc : next (newBind s cases a sc).1 = S (S (next s)).
+Proof. unfold newBind. rewrite newBindWith_eq, !next_newNode. reflexivity. Qed.
 
 Lemma matches_S fuel s sc x e r : matches (S fuel) s sc x e r =
   match e, r with
@@ -134,16 +212,52 @@ Lemma matches_S fuel s sc x e r : matches (S fuel) s sc x e r =
   end.
 Proof. reflexivity. Qed.
 
-(* a plain template that matches in [s] matches in every extension of [s] by fresh nodes *)
+(** the invariants of the states [inst] goes through *)
+Record IW (b : nat) (s : state) : Prop := {
+  iw_lt : forall m, has s m -> (m < next s)%nat;
+  iw_bk : forall b1, is_Some (binds s !! b1) -> (b1 < next s)%nat;
+  iw_b : (b < next s)%nat;
+  iw_ko : forall n b', has s n -> nkind (nd s n) = KBindMain b' -> is_Some (binds s !! b')
+}.
+
+Lemma IW_instF b s s' : IW b s -> instF b s s' -> IW b s'.
+Proof.
+  intros [Hlt Hbk Hb Hko] F. pose proof (if_next _ _ _ F) as Hn. constructor.
+  - intros m Hm. destruct (decide (m < next s')%nat) as [|Hge]; [assumption|].
+    unfold has in Hm. rewrite (if_old _ _ _ F m) in Hm by lia. pose proof (Hlt m Hm). lia.
+  - intros b1 Hs. destruct (decide (b1 = b)) as [->|Hne]; [lia|].
+    destruct (if_bd _ _ _ F b1 Hne) as [E|[_ R]]; [|lia]. rewrite E in Hs. pose proof (Hbk b1 Hs). lia.
+  - lia.
+  - intros n b' Hn' K. destruct (decide (next s <= n < next s')%nat) as [Hnew|Hold].
+    + destruct (if_new _ _ _ F n Hnew) as (k & d & v & E & _ & _ & Hb1). rewrite (nd_lookup _ _ _ E) in K. cbn in K.
+      apply (Hb1 b' K).
+    + assert (Ho : (n < next s \/ next s' <= n)%nat) by lia.
+      unfold has in Hn'. rewrite (if_old _ _ _ F n Ho) in Hn'. rewrite (instF_nd_old b s s' n F Ho) in K.
+      pose proof (Hko n b' Hn' K) as Hs. destruct (decide (b' = b)) as [->|Hne]; [apply (if_bdb _ _ _ F), Hs|].
+      destruct (if_bd _ _ _ F b' Hne) as [E|[E _]]; [rewrite E; exact Hs|]. rewrite E in Hs. destruct Hs; discriminate.
+Qed.
+
+(* the records read by [matches] are kept by an extension *)
+Lemma instF_bd_read b s s' b' : instF b s s' -> is_Some (binds s !! b') ->
+  b_cases (bd s' b') = b_cases (bd s b') /\ b_main (bd s' b') = b_main (bd s b') /\ b_lhs (bd s' b') = b_lhs (bd s b').
+Proof.
+  intros F Hs. destruct (decide (b' = b)) as [->|Hne].
+  - destruct (if_bdb _ _ _ F) as (A&_&C&_&D&_). auto.
+  - destruct (if_bd _ _ _ F b' Hne) as [E|[E _]]; [|rewrite E in Hs; destruct Hs; discriminate].
+    unfold bd. rewrite E. auto.
+Qed.
+
+(* a template that matches in [s] matches in every extension of [s] by fresh nodes *)
 Lemma matches_instF b fuel : forall s s' x e r,
-  (forall m, has s m -> (m < next s)%nat) -> instF b s s' -> tplain false e = true ->
+  IW b s -> instF b s s' -> tplain false e = true ->
   matches fuel s (Some b) x e r = true -> matches fuel s' (Some b) x e r = true.
 Proof.
-  induction fuel as [|fuel IH]; intros s s' x e r Hlt F Hp H; [discriminate|].
+  induction fuel as [|fuel IH]; intros s s' x e r W F Hp H; [discriminate|].
   rewrite matches_S in *.
+  assert (Hhas : forall n, scope (nd s n) = Some b -> has s n).
+  { intros n Hs. destruct (decide (has s n)) as [Hn|Hn]; [exact Hn|]. rewrite (not_has_nd _ _ Hn) in Hs. discriminate. }
   assert (Hnd : forall n, scope (nd s n) = Some b -> nd s' n = nd s n).
-  { intros n Hs. apply (instF_nd_old b s s' n F). left.
-    destruct (decide (has s n)) as [Hn|Hn]; [apply Hlt, Hn|]. rewrite (not_has_nd _ _ Hn) in Hs. discriminate. }
+  { intros n Hs. apply (instF_nd_old b s s' n F). left. apply (iw_lt _ _ W), Hhas, Hs. }
   destruct r as [n|]; destruct e; try discriminate; try exact H; simpl in Hp; cbv zeta in *.
   - rewrite !andb_true_iff in H. destruct H as [[H1 H2] H3]. apply bool_decide_eq_true in H3.
     rewrite (Hnd n H3). rewrite !andb_true_iff. repeat split; try assumption. apply bool_decide_eq_true, H3.
@@ -160,6 +274,12 @@ Proof.
   - rewrite !andb_true_iff in H. destruct H as [[H1 H2] H3]. apply bool_decide_eq_true in H2.
     rewrite (Hnd n H2). rewrite !andb_true_iff. split; [split; [exact H1|apply bool_decide_eq_true, H2]|].
     destruct (decl (nd s n)) as [|a [|]]; try discriminate. apply (IH s s'); assumption.
+  - apply andb_true_iff in Hp as [_ Hp2].
+    destruct (nkind (nd s n)) eqn:K; try discriminate.
+    rewrite !andb_true_iff in H. destruct H as [[[H1 H2] H3] H4]. apply bool_decide_eq_true in H1.
+    rewrite (Hnd n H1), K.
+    destruct (instF_bd_read b s s' b0 F (iw_ko _ _ W n b0 (Hhas n H1) K)) as (Ec & Em & El).
+    rewrite Ec, Em, El, H2, H3. rewrite (bool_decide_eq_true_2 _ H1). simpl. apply (IH s s'); assumption.
 Qed.
 
 Lemma matches_mono fuel : forall fuel' s sc x e r,
@@ -180,11 +300,19 @@ Proof.
     apply andb_true_iff. split; [exact H1|]. apply (IH fuel'); assumption.
 Qed.
 
-Lemma instF_lt b s s' : (forall m, has s m -> (m < next s)%nat) -> instF b s s' -> forall m, has s' m -> (m < next s')%nat.
+Lemma texp_eqb_refl : forall e, texp_eqb e e = true.
 Proof.
-  intros Hlt F m Hm. pose proof (if_next _ _ _ F). destruct (decide (m < next s')%nat) as [|Hge]; [assumption|].
-  unfold has in Hm. rewrite (if_old _ _ _ F m) in Hm by lia. pose proof (Hlt m Hm). lia.
+  fix IH 1. intros e. destruct e; simpl; try reflexivity.
+  - apply Z.eqb_refl.
+  - apply Nat.eqb_refl.
+  - rewrite bool_decide_eq_true_2 by reflexivity. apply IH.
+  - rewrite bool_decide_eq_true_2 by reflexivity. rewrite !IH. reflexivity.
+  - rewrite bool_decide_eq_true_2 by reflexivity. apply IH.
+  - rewrite IH, andb_true_r. induction cases as [|c l IHl]; [reflexivity|]. rewrite IH. exact IHl.
 Qed.
+
+Lemma texps_eqb_refl l : texps_eqb l l = true.
+Proof. induction l as [|c l IH]; [reflexivity|]. simpl. rewrite texp_eqb_refl. exact IH. Qed.
 
 Lemma nd_fresh_lookup s m x : nodes s !! m = Some x -> nd s m = x.
 Proof. apply nd_lookup. Qed.
@@ -204,62 +332,113 @@ Local Ltac nn H s1 n1 :=
     rewrite newNode_snd in E2; cbn [fst snd] in E1, E2; subst s1 n1; clear En
   end.
 
+(* the case tables of the records created by an instantiation come from the template *)
+Definition newQ (b : nat) (s s' : state) (e : texp) : Prop :=
+  forall Q, subclosed Q -> Q e = true ->
+    forall b1 r1, b1 <> b -> binds s' !! b1 = Some r1 -> binds s !! b1 = None -> forallb Q (b_cases r1) = true.
+
+Lemma newQ_old b s s' e : instF b s s' ->
+  (forall b', b' <> b -> binds s' !! b' = binds s !! b') -> newQ b s s' e.
+Proof. intros F H Q _ _ b1 r1 Hne Hr Hn. rewrite (H b1 Hne) in Hr. congruence. Qed.
+
+Local Opaque newBind.
+
 Lemma inst_plain b x : forall e root s s' r,
-  (forall m, has s m -> (m < next s)%nat) -> tplain root e = true ->
+  IW b s -> tplain root e = true ->
   inst s (Some b) x e = (s', r) ->
-  instF b s s' /\
+  instF b s s' /\ newQ b s s' e /\
   match r with
   | Some n => matches (tdepth e) s' (Some b) x e (Some n) = true
   | None => e = TNil /\ s' = s
   end.
 Proof.
-  induction e as [k| |t|f e IH|f e1 IH1 e2 IH2|c e IH|cs e IH|]; intros root s s' r Hlt Hp H; simpl in H, Hp.
+  induction e as [k| |t|f e IH|f e1 IH1 e2 IH2|c e IH|cs e IH|]; intros root s s' r W Hp H; simpl in H, Hp.
   - (* TRet *) nn H s1 n1. injection H as <- <-.
-    split; [apply instF_newNode; reflexivity|]. simpl.
-    rewrite nd_newNode, decide_True by reflexivity. simpl. rewrite Z.eqb_refl, !bool_decide_eq_true_2 by reflexivity. reflexivity.
+    assert (F : instF b s (newNode s KReturn [] (Some b) k).1) by (apply instF_newNode; reflexivity).
+    split; [exact F|]. split; [apply (newQ_old b _ _ _ F); intros b' Hb; rewrite binds_newNode, lookup_alter_ne by congruence; reflexivity|].
+    simpl. rewrite nd_newNode, decide_True by reflexivity. simpl. rewrite Z.eqb_refl, !bool_decide_eq_true_2 by reflexivity. reflexivity.
   - (* TX *) nn H s1 n1. injection H as <- <-.
-    split; [apply instF_newNode; reflexivity|]. simpl.
-    rewrite nd_newNode, decide_True by reflexivity. simpl. rewrite Z.eqb_refl, !bool_decide_eq_true_2 by reflexivity. reflexivity.
-  - (* TOuter *) injection H as <- <-. split; [apply instF_refl|]. simpl. apply bool_decide_eq_true. reflexivity.
+    assert (F : instF b s (newNode s KReturn [] (Some b) x).1) by (apply instF_newNode; reflexivity).
+    split; [exact F|]. split; [apply (newQ_old b _ _ _ F); intros b' Hb; rewrite binds_newNode, lookup_alter_ne by congruence; reflexivity|].
+    simpl. rewrite nd_newNode, decide_True by reflexivity. simpl. rewrite Z.eqb_refl, !bool_decide_eq_true_2 by reflexivity. reflexivity.
+  - (* TOuter *) injection H as <- <-. split; [apply instF_refl|]. split; [intros Q _ _ b1 r1 _ Hr Hn; congruence|].
+    simpl. apply bool_decide_eq_true. reflexivity.
   - (* TMap *)
-    destruct (inst s (Some b) x e) as [s1 a] eqn:E1. destruct (IH false s s1 a Hlt Hp E1) as [F1 M1].
+    destruct (inst s (Some b) x e) as [s1 a] eqn:E1. destruct (IH false s s1 a W Hp E1) as (F1 & Q1 & M1).
     destruct a as [n|]; [|destruct M1 as [-> _]; discriminate Hp].
     cbn [default] in H. nn H s2 n2. injection H as <- <-.
     assert (F2 : instF b s1 (newNode s1 (KMap f) [n] (Some b) 0).1) by (apply instF_newNode; reflexivity).
-    split; [eapply instF_trans; eauto|]. cbn [tdepth]. rewrite matches_S. cbv zeta.
+    split; [eapply instF_trans; eauto|]. split.
+    { intros Q HQ Hq b1 r1 Hne Hr Hn. rewrite binds_newNode, lookup_alter_ne in Hr by congruence.
+      apply (Q1 Q HQ (proj1 HQ f e Hq) b1 r1 Hne Hr Hn). }
+    cbn [tdepth]. rewrite matches_S. cbv zeta.
     rewrite nd_newNode, decide_True by reflexivity. simpl. rewrite !bool_decide_eq_true_2 by reflexivity. simpl.
-    apply (matches_instF b _ s1 _ x e (Some n) (instF_lt b s s1 Hlt F1) F2 Hp M1).
+    apply (matches_instF b _ s1 _ x e (Some n) (IW_instF b s s1 W F1) F2 Hp M1).
   - (* TMap2 *)
     apply andb_true_iff in Hp as [Hp1 Hp2].
-    destruct (inst s (Some b) x e1) as [s1 a1] eqn:E1. destruct (IH1 false s s1 a1 Hlt Hp1 E1) as [F1 M1].
-    pose proof (instF_lt b s s1 Hlt F1) as Hlt1.
-    destruct (inst s1 (Some b) x e2) as [s2 a2] eqn:E2. destruct (IH2 false s1 s2 a2 Hlt1 Hp2 E2) as [F2 M2].
-    pose proof (instF_lt b s1 s2 Hlt1 F2) as Hlt2.
+    destruct (inst s (Some b) x e1) as [s1 a1] eqn:E1. destruct (IH1 false s s1 a1 W Hp1 E1) as (F1 & Q1 & M1).
+    pose proof (IW_instF b s s1 W F1) as W1.
+    destruct (inst s1 (Some b) x e2) as [s2 a2] eqn:E2. destruct (IH2 false s1 s2 a2 W1 Hp2 E2) as (F2 & Q2 & M2).
+    pose proof (IW_instF b s1 s2 W1 F2) as W2.
     destruct a1 as [n1|]; [|destruct M1 as [-> _]; discriminate Hp1].
     destruct a2 as [n2|]; [|destruct M2 as [-> _]; discriminate Hp2].
     cbn [default] in H. nn H s3 n3. injection H as <- <-.
     assert (F3 : instF b s2 (newNode s2 (KMap2 f) [n1; n2] (Some b) 0).1) by (apply instF_newNode; reflexivity).
-    split; [eapply instF_trans; [exact F1|eapply instF_trans; eauto]|]. cbn [tdepth]. rewrite matches_S. cbv zeta.
+    split; [eapply instF_trans; [exact F1|eapply instF_trans; eauto]|]. split.
+    { intros Q HQ Hq b1 r1 Hne Hr Hn. rewrite binds_newNode, lookup_alter_ne in Hr by congruence.
+      destruct (proj1 (proj2 HQ) f e1 e2 Hq) as [Hq1 Hq2].
+      destruct (if_bd _ _ _ F2 b1 Hne) as [E|[E _]].
+      - rewrite E in Hr. apply (Q1 Q HQ Hq1 b1 r1 Hne Hr Hn).
+      - apply (Q2 Q HQ Hq2 b1 r1 Hne Hr E). }
+    cbn [tdepth]. rewrite matches_S. cbv zeta.
     rewrite nd_newNode, decide_True by reflexivity. simpl. rewrite !bool_decide_eq_true_2 by reflexivity. simpl.
     apply andb_true_iff. split.
     + apply (matches_mono (tdepth e1)); [lia|].
-      apply (matches_instF b _ s1 _ x e1 (Some n1) Hlt1 (instF_trans _ _ _ _ F2 F3) Hp1 M1).
+      apply (matches_instF b _ s1 _ x e1 (Some n1) W1 (instF_trans _ _ _ _ F2 F3) Hp1 M1).
     + apply (matches_mono (tdepth e2)); [lia|].
-      apply (matches_instF b _ s2 _ x e2 (Some n2) Hlt2 F3 Hp2 M2).
+      apply (matches_instF b _ s2 _ x e2 (Some n2) W2 F3 Hp2 M2).
   - (* TCut *)
-    destruct (inst s (Some b) x e) as [s1 a] eqn:E1. destruct (IH false s s1 a Hlt Hp E1) as [F1 M1].
+    destruct (inst s (Some b) x e) as [s1 a] eqn:E1. destruct (IH false s s1 a W Hp E1) as (F1 & Q1 & M1).
     destruct a as [n|]; [|destruct M1 as [-> _]; discriminate Hp].
     cbn [default] in H. nn H s2 n2. injection H as <- <-.
     assert (F2 : instF b s1 (newNode s1 (KCutoff c) [n] (Some b) 0).1).
     { apply instF_newNode; try reflexivity. unfold shape_node, arity_ok, cutalways_zero, always_lt. simpl.
       destruct c; reflexivity. }
-    split; [eapply instF_trans; eauto|]. cbn [tdepth]. rewrite matches_S. cbv zeta.
+    split; [eapply instF_trans; eauto|]. split.
+    { intros Q HQ Hq b1 r1 Hne Hr Hn. rewrite binds_newNode, lookup_alter_ne in Hr by congruence.
+      apply (Q1 Q HQ (proj1 (proj2 (proj2 HQ)) c e Hq) b1 r1 Hne Hr Hn). }
+    cbn [tdepth]. rewrite matches_S. cbv zeta.
     rewrite nd_newNode, decide_True by reflexivity. simpl. rewrite !bool_decide_eq_true_2 by reflexivity. simpl.
-    apply (matches_instF b _ s1 _ x e (Some n) (instF_lt b s s1 Hlt F1) F2 Hp M1).
-  - discriminate Hp.
-  - (* TNil *) injection H as <- <-. split; [apply instF_refl|auto].
+    apply (matches_instF b _ s1 _ x e (Some n) (IW_instF b s s1 W F1) F2 Hp M1).
+  - (* TBind *)
+    apply andb_true_iff in Hp as [Hpc Hpe].
+    destruct (inst s (Some b) x e) as [s1 a] eqn:E1. destruct (IH false s s1 a W Hpe E1) as (F1 & Q1 & M1).
+    pose proof (IW_instF b s s1 W F1) as W1.
+    destruct a as [n|]; [|destruct M1 as [-> _]; discriminate Hpe].
+    cbn [default] in H.
+    assert (Hbn : b <> next s1) by (pose proof (iw_b _ _ W1); lia).
+    assert (Hfr : binds s1 !! (next s1) = None).
+    { destruct (binds s1 !! next s1) eqn:E; [|reflexivity]. pose proof (iw_bk _ _ W1 (next s1) ltac:(eauto)). lia. }
+    destruct (instF_newBind b s1 cs n Hbn Hfr) as (F2 & Esnd & Emain & Erec & Enext & Hno2).
+    unfold id in H. destruct (newBind s1 cs n (Some b)) as [s2 m2] eqn:EB. cbn [fst snd] in F2, Esnd, Emain, Erec, Enext, Hno2.
+    injection H as <- <-. subst m2.
+    assert (Hnorec : forall r1, binds s2 !! S (next s1) = Some r1 -> False).
+    { intros r1 Hr1. rewrite Hno2 in Hr1; [discriminate| |pose proof (iw_b _ _ W1); lia].
+      destruct (binds s1 !! S (next s1)) eqn:E; [|reflexivity]. pose proof (iw_bk _ _ W1 (S (next s1)) ltac:(eauto)). lia. }
+    split; [eapply instF_trans; eauto|]. split.
+    { intros Q HQ Hq b1 r1 Hne Hr Hn. destruct (proj2 (proj2 (proj2 HQ)) cs e Hq) as [Hqc Hqe].
+      destruct (if_bd _ _ _ F2 b1 Hne) as [E|[E R]].
+      - rewrite E in Hr. apply (Q1 Q HQ Hqe b1 r1 Hne Hr Hn).
+      - assert (b1 = next s1) as ->.
+        { destruct (decide (b1 = next s1)) as [|Hx]; [assumption|exfalso].
+          rewrite Enext in R. assert (b1 = S (next s1)) as -> by lia.
+          apply (Hnorec r1 Hr). }
+        unfold bd in Erec. rewrite Hr in Erec. cbn in Erec. rewrite Erec. exact Hqc. }
+    cbn [tdepth]. rewrite matches_S. cbv zeta. rewrite Emain. cbn [nkind scope fresh_node].
+    rewrite Erec. cbn [b_cases b_main b_lhs]. rewrite texps_eqb_refl, !bool_decide_eq_true_2 by reflexivity. simpl.
+    apply (matches_instF b _ s1 _ x e (Some n) W1 F2 Hpe M1).
+  - (* TNil *) injection H as <- <-. split; [apply instF_refl|]. split; [intros Q _ _ b1 r1 _ Hr Hn; congruence|auto].
 Qed.
-
 
 (** * 2. Invariant-free frames *)
 
@@ -1051,21 +1230,20 @@ Qed.
 Definition Tplain (s : state) : Prop :=
   forall b r, binds s !! b = Some r -> forallb (tplain true) (b_cases r) = true.
 
-(* every bind record after the step has the case table of a record before it *)
-Definition CF (s s' : state) : Prop :=
-  forall b r', binds s' !! b = Some r' -> exists r, binds s !! b = Some r /\ b_cases r' = b_cases r.
+(* every hereditary property of all case tables is kept: the new records' tables are sub-tables of
+   instantiated templates *)
+Definition AllQ (Q : texp -> bool) (s : state) : Prop :=
+  forall b r, binds s !! b = Some r -> forallb Q (b_cases r) = true.
+Definition CF (s s' : state) : Prop := forall Q, subclosed Q -> AllQ Q s -> AllQ Q s'.
 
 Lemma CF_binds s s' : binds s' = binds s -> CF s s'.
-Proof. intros E b r' Hr. rewrite E in Hr. eauto. Qed.
+Proof. intros E Q _ H b r Hr. rewrite E in Hr. apply (H b r Hr). Qed.
 
 Lemma CF_trans s1 s2 s3 : CF s1 s2 -> CF s2 s3 -> CF s1 s3.
-Proof.
-  intros A B b r3 H3. destruct (B b r3 H3) as (r2 & H2 & E2). destruct (A b r2 H2) as (r1 & H1 & E1).
-  exists r1. split; [exact H1|congruence].
-Qed.
+Proof. intros A B Q HQ H. apply (B Q HQ), (A Q HQ), H. Qed.
 
 Lemma Tplain_CF s s' : CF s s' -> Tplain s -> Tplain s'.
-Proof. intros C T b r' Hr. destruct (C b r' Hr) as (r & Hr0 & ->). apply (T b r Hr0). Qed.
+Proof. intros C T. apply (C (tplain true) subclosed_tplain T). Qed.
 
 Lemma select_tplain cases x : forallb (tplain true) cases = true -> tplain true (select cases x) = true.
 Proof.
@@ -1109,6 +1287,11 @@ Proof.
   intros [r E]. unfold s7_of, s6_of, bd, upd, updb, emit. cbn. rewrite !lookup_alter, E. cbn. auto.
 Qed.
 
+Lemma bd_s7_main b x s3 root : b_main (bd (s7_of b x s3 root) b) = b_main (bd s3 b).
+Proof.
+  unfold s7_of, s6_of, bd, upd, updb, emit. cbn. rewrite !lookup_alter. destruct (binds s3 !! b); reflexivity.
+Qed.
+
 Lemma binds_s7_ne b x s3 root b' : b' <> b -> binds (s7_of b x s3 root) !! b' = binds s3 !! b'.
 Proof. intros Hne. unfold s7_of, s6_of, upd, updb, emit. cbn. rewrite !lookup_alter_ne by congruence. reflexivity. Qed.
 
@@ -1139,7 +1322,11 @@ Proof.
     pose proof (tdepth_pos e1). pose proof (tdepth_pos e2). lia.
   - destruct (inst s (Some b) x e) as [s1 a] eqn:E1. pose proof (IH false s s1 a Hp E1).
     nn H s2 n2. injection H as <- <-. rewrite next_newNode. simpl. lia.
-  - discriminate Hp.
+  - apply andb_true_iff in Hp as [_ Hpe].
+    destruct (inst s (Some b) x e) as [s1 a] eqn:E1. pose proof (IH false s s1 a Hpe E1).
+    destruct (newBind s1 cs (default 0%nat a) (Some b)) as [s2 m2] eqn:EB.
+    pose proof (next_newBind s1 cs (default 0%nat a) (Some b)) as Hn. rewrite EB in Hn. cbn [fst] in Hn.
+    injection H as <- <-. cbn [tdepth]. lia.
   - injection H as <- <-. simpl. lia.
 Qed.
 
@@ -1149,9 +1336,11 @@ Lemma matches_frame fuel : forall s s' sc x e r root,
   (forall n, nkind (nd s' n) = nkind (nd s n) /\ scope (nd s' n) = scope (nd s n)) ->
   (forall n, isBindKind (nkind (nd s n)) = false -> decl (nd s' n) = decl (nd s n)) ->
   (forall n, nkind (nd s n) = KReturn -> value (nd s' n) = value (nd s n)) ->
+  (forall b', b_cases (bd s' b') = b_cases (bd s b') /\ b_main (bd s' b') = b_main (bd s b') /\
+              b_lhs (bd s' b') = b_lhs (bd s b')) ->
   matches fuel s' sc x e r = matches fuel s sc x e r.
 Proof.
-  induction fuel as [|fuel IH]; intros s s' sc x e r root Hp Hk Hd Hv; [reflexivity|].
+  induction fuel as [|fuel IH]; intros s s' sc x e r root Hp Hk Hd Hv Hbd; [reflexivity|].
   rewrite !matches_S. destruct r as [n|]; destruct e; try reflexivity; simpl in Hp; cbv zeta;
     destruct (Hk n) as [Ek Es]; rewrite Ek, Es.
   - destruct (decide (nkind (nd s n) = KReturn)) as [K|K]; [rewrite (Hv n K); reflexivity|].
@@ -1168,7 +1357,8 @@ Proof.
   - destruct (decide (nkind (nd s n) = KCutoff c)) as [K|K]; [|rewrite (bool_decide_eq_false_2 _ K); reflexivity].
     rewrite (Hd n) by (rewrite K; reflexivity). destruct (decl (nd s n)) as [|a [|]]; try reflexivity.
     rewrite (IH s s' sc x e (Some a) false) by assumption. reflexivity.
-  - discriminate Hp.
+  - apply andb_true_iff in Hp as [_ Hpe]. destruct (nkind (nd s n)); try reflexivity.
+    destruct (Hbd b) as (Ec & Em & El). rewrite Ec, Em, El. rewrite (IH s s' sc x e (Some (b_lhs (bd s b))) false) by assumption. reflexivity.
 Qed.
 
 Definition readsDecl (k : kind) : bool := match k with KMap _ | KMap2 _ | KCutoff _ => true | _ => false end.
@@ -1180,9 +1370,12 @@ Lemma matches_old fuel : forall s s' b' x e r root,
              nkind (nd s' m) = nkind (nd s m) /\ scope (nd s' m) = scope (nd s m) /\
              value (nd s' m) = value (nd s m) /\
              (readsDecl (nkind (nd s m)) = true -> decl (nd s' m) = decl (nd s m))) ->
+  (forall m b1, has s m -> nkind (nd s m) = KBindMain b1 ->
+             b_cases (bd s' b1) = b_cases (bd s b1) /\ b_main (bd s' b1) = b_main (bd s b1) /\
+             b_lhs (bd s' b1) = b_lhs (bd s b1)) ->
   matches fuel s (Some b') x e r = true -> matches fuel s' (Some b') x e r = true.
 Proof.
-  induction fuel as [|fuel IH]; intros s s' b' x e r root Hp Hst0 H; [discriminate|].
+  induction fuel as [|fuel IH]; intros s s' b' x e r root Hp Hst0 Hbd H; [discriminate|].
   rewrite matches_S in *.
   assert (Hhas : forall n, scope (nd s n) = Some b' -> has s n).
   { intros n Hs. destruct (decide (has s n)) as [Hn|Hn]; [exact Hn|]. rewrite (not_has_nd _ _ Hn) in Hs. discriminate. }
@@ -1212,6 +1405,12 @@ Proof.
     destruct (Hst n H2) as (Ek & Es & _ & Ed). rewrite Ek, Es, (Ed ltac:(rewrite H1; reflexivity)), H1, H2.
     rewrite !bool_decide_eq_true_2 by reflexivity. simpl.
     destruct (decl (nd s n)) as [|a [|]]; try discriminate. apply (IH s s' b' x e (Some a) false); assumption.
+  - apply andb_true_iff in Hp as [_ Hpe].
+    destruct (nkind (nd s n)) eqn:K; try discriminate.
+    rewrite !andb_true_iff in H. destruct H as [[[H1 H2] H3] H4]. apply bool_decide_eq_true in H1.
+    destruct (Hst n H1) as (Ek & Es & _). rewrite Ek, K, Es.
+    destruct (Hbd n b (Hhas n H1) K) as (Ec & Em & El). rewrite Ec, Em, El, H2, H3.
+    rewrite (bool_decide_eq_true_2 _ H1). simpl. apply (IH s s' b' x e _ false); assumption.
 Qed.
 
 Lemma valueOf__old fuel : forall s s' p,
@@ -1255,11 +1454,13 @@ Lemma matches_transport b x case root s3 u fuel :
   (forall m, nkind (nd u m) = nkind (nd s3 m) /\ scope (nd u m) = scope (nd s3 m)) ->
   (forall m, isBindKind (nkind (nd s3 m)) = false -> decl (nd u m) = decl (nd s3 m)) ->
   (forall m, value (nd u m) = value (nd s3 m)) ->
+  (forall b', b_cases (bd u b') = b_cases (bd s3 b') /\ b_main (bd u b') = b_main (bd s3 b') /\
+              b_lhs (bd u b') = b_lhs (bd s3 b')) ->
   matches fuel u (Some b) x case root = true.
 Proof.
-  intros Hp M Hf Hk Hd Hv. destruct root as [n|].
+  intros Hp M Hf Hk Hd Hv Hbd. destruct root as [n|].
   - apply (matches_mono (tdepth case)); [exact Hf|].
-    rewrite (matches_frame _ s3 u (Some b) x case (Some n) true Hp Hk Hd); [exact M|]. intros m _. apply Hv.
+    rewrite (matches_frame _ s3 u (Some b) x case (Some n) true Hp Hk Hd); [exact M| |exact Hbd]. intros m _. apply Hv.
   - rewrite M. pose proof (tdepth_pos TNil). destruct fuel; [rewrite M in Hf; simpl in Hf; lia|reflexivity].
 Qed.
 
@@ -1342,12 +1543,38 @@ Section Assemble.
   Local Lemma Hcase : tplain true (select (b_cases r0) x) = true.
   Proof. destruct Hrec as (r & Hr & ->). apply select_tplain, (TP b r Hr). Qed.
 
+  Local Lemma W1' : IW b s1'.
+  Proof.
+    constructor.
+    - exact Hlt1.
+    - intros b1 Hs. assert (Hs0 : is_Some (binds s !! b1)).
+      { unfold s1', updb in Hs. cbn in Hs. destruct (decide (b1 = b)) as [->|Hne].
+        - destruct Hrec as (r & Hr & _). eauto.
+        - rewrite lookup_alter_ne in Hs by congruence. exact Hs. }
+      destruct Hs0 as [r Hr]. apply (io_lt _ (p_ids _ P)). apply (bw_has_lhs _ _ _ (p_binds _ P b1 r Hr)).
+    - apply (io_lt _ (p_ids _ P)). exact Hb.
+    - intros n b' Hn K. assert (Hn0 : has s n) by (unfold s1' in Hn; rewrite has_updb in Hn; unfold s1 in Hn; rewrite has_upd in Hn; exact Hn).
+      assert (K0 : nkind (nd s n) = KBindMain b').
+      { unfold s1' in K. rewrite nd_updb in K. unfold s1 in K. rewrite (nd_upd_proj nkind) in K by reflexivity. exact K. }
+      pose proof (p_kinds s P n Hn0) as Kk. rewrite K0 in Kk. destruct Kk as [_ [r Hr]].
+      unfold s1', updb. cbn. destruct (decide (b' = b)) as [->|Hne].
+      + rewrite lookup_alter. change (binds s1) with (binds s). rewrite Hr. eauto.
+      + rewrite lookup_alter_ne by congruence. change (binds s1) with (binds s). eauto.
+  Qed.
+
+  Local Lemma IF3 : instF b s1' s3 /\ newQ b s1' s3 (select (b_cases r0) x) /\
+    match root with
+    | Some n => matches (tdepth (select (b_cases r0) x)) s3 (Some b) x (select (b_cases r0) x) (Some n) = true
+    | None => select (b_cases r0) x = TNil /\ s3 = s1'
+    end.
+  Proof. exact (inst_plain b x _ true s1' s3 root W1' Hcase Einst). Qed.
+
   Local Lemma IF : instF b s1' s3 /\
     match root with
     | Some n => matches (tdepth (select (b_cases r0) x)) s3 (Some b) x (select (b_cases r0) x) (Some n) = true
     | None => select (b_cases r0) x = TNil /\ s3 = s1'
     end.
-  Proof. exact (inst_plain b x _ true s1' s3 root Hlt1 Hcase Einst). Qed.
+  Proof. destruct IF3 as (A & _ & C). auto. Qed.
 
   Local Lemma Hs7eq : upd s6 (S b) (set decl (fun _ => match root with Some r => [b; r] | None => [b] end)) = s7.
   Proof. apply s7_eq. Qed.
@@ -1606,11 +1833,20 @@ Section Assemble.
     intros Ka. apply A4. intros ->. rewrite Hkmain in Ka. discriminate.
   Qed.
 
-  Local Lemma U_binds b' : b' <> b -> binds u !! b' = binds s !! b'.
+  Local Lemma U_binds3 b' : b' <> b -> binds u !! b' = binds s3 !! b'.
   Proof.
     intros Hne. rewrite (is_binds _ _ Hsame). destruct (c_fields _ _ _ _ C8) as (E & _). rewrite E.
-    unfold s7. rewrite (binds_s7_ne b x s3 root b' Hne). rewrite (if_bd _ _ _ (proj1 IF) b' Hne).
-    unfold s1', updb. cbn. rewrite lookup_alter_ne by congruence. reflexivity.
+    unfold s7. apply (binds_s7_ne b x s3 root b' Hne).
+  Qed.
+
+  Local Lemma S1'_binds b' : b' <> b -> binds s1' !! b' = binds s !! b'.
+  Proof. intros Hne. unfold s1', updb. cbn. rewrite lookup_alter_ne by congruence. reflexivity. Qed.
+
+  Local Lemma U_binds b' : b' <> b -> is_Some (binds s !! b') -> binds u !! b' = binds s !! b'.
+  Proof.
+    intros Hne Hs. rewrite (U_binds3 b' Hne). destruct (if_bd _ _ _ (proj1 IF) b' Hne) as [E|[E _]].
+    - rewrite E. apply S1'_binds, Hne.
+    - rewrite (S1'_binds b' Hne) in E. rewrite E in Hs. destruct Hs; discriminate.
   Qed.
 
   Local Lemma U_bdb : b_lhs (bd u b) = b_lhs r0 /\ b_cases (bd u b) = b_cases r0 /\ b_rhs (bd u b) = root.
@@ -1620,7 +1856,7 @@ Section Assemble.
     { unfold s1', updb, bd. cbn. rewrite lookup_alter. change (binds s1) with (binds s). rewrite Hr. reflexivity. }
     assert (Hs1 : is_Some (binds s1' !! b)).
     { unfold s1', updb. cbn. rewrite lookup_alter. change (binds s1) with (binds s). rewrite Hr. eauto. }
-    destruct (if_bdb _ _ _ (proj1 IF)) as (L3 & R3 & C3 & _ & S3).
+    destruct (if_bdb _ _ _ (proj1 IF)) as (L3 & R3 & C3 & _ & _ & S3).
     destruct (bd_s7 b x s3 root (proj2 S3 Hs1)) as (L7 & C7 & R7').
     assert (Eb : bd u b = bd s7 b).
     { unfold bd. rewrite (is_binds _ _ Hsame). destruct (c_fields _ _ _ _ C8) as (E & _). rewrite E. reflexivity. }
@@ -1639,6 +1875,21 @@ Section Assemble.
     rewrite (bw_decl_lhs _ _ _ (p_binds _ P b r Hr)), Er0. left.
   Qed.
 
+  Local Lemma U_read3 b' : b_cases (bd u b') = b_cases (bd s3 b') /\ b_main (bd u b') = b_main (bd s3 b') /\
+                           b_lhs (bd u b') = b_lhs (bd s3 b').
+  Proof.
+    destruct (decide (b' = b)) as [->|Hne].
+    - assert (Eb : bd u b = bd s7 b).
+      { unfold bd. rewrite (is_binds _ _ Hsame). destruct (c_fields _ _ _ _ C8) as (E & _). rewrite E. reflexivity. }
+      rewrite Eb. unfold s7. rewrite (bd_s7_main b x s3 root).
+      destruct Hrec as (r & Hr & Er0).
+      assert (Hs1 : is_Some (binds s1' !! b)).
+      { unfold s1', updb. cbn. rewrite lookup_alter. change (binds s1) with (binds s). rewrite Hr. eauto. }
+      destruct (if_bdb _ _ _ (proj1 IF)) as (_ & _ & _ & _ & _ & S3).
+      destruct (bd_s7 b x s3 root (proj2 S3 Hs1)) as (L7 & C7 & _). auto.
+    - unfold bd. rewrite (U_binds3 b' Hne). auto.
+  Qed.
+
   Local Lemma U_match : matchesOK u b = true.
   Proof.
     unfold matchesOK. destruct U_bdb as (E1 & E2 & E3). rewrite E1, E2, E3. rewrite (U_valueOf _ Hhaslhs), <- Hx.
@@ -1650,6 +1901,7 @@ Section Assemble.
     - intros m Hkm. destruct (U_from3 m) as (_&_&_&A4). apply A4. intros ->.
       destruct (S3_static (S b) Hhasmain) as (K3 & _). rewrite K3, Hkmain in Hkm. discriminate.
     - intros m. apply (U_from3 m).
+    - apply U_read3.
   Qed.
 
   Local Lemma U_kind m : nkind (nd u m) = nkind (nd s7 m).
@@ -1976,8 +2228,20 @@ Section Assemble.
     rewrite (S'proj nkind), (S'proj decl), (S'proj value) by reflexivity. auto.
   Qed.
 
-  Local Lemma S'bd b' : b' <> b -> bd s' b' = bd s b'.
-  Proof. intros Hne. unfold bd. rewrite (proj1 S'fields), (U_binds b' Hne). reflexivity. Qed.
+  Local Lemma S'bd b' : b' <> b -> is_Some (binds s !! b') -> bd s' b' = bd s b'.
+  Proof. intros Hne Hs. unfold bd. rewrite (proj1 S'fields), (U_binds b' Hne Hs). reflexivity. Qed.
+
+  Local Lemma S'read b1 : is_Some (binds s !! b1) ->
+    b_cases (bd s' b1) = b_cases (bd s b1) /\ b_main (bd s' b1) = b_main (bd s b1) /\ b_lhs (bd s' b1) = b_lhs (bd s b1).
+  Proof.
+    intros Hs. destruct (decide (b1 = b)) as [->|Hne]; [|rewrite (S'bd b1 Hne Hs); auto].
+    assert (E0 : bd s' b = bd u b) by (unfold bd; rewrite (proj1 S'fields); reflexivity). rewrite E0.
+    destruct (U_read3 b) as (A1 & A2 & A3). destruct (if_bdb _ _ _ (proj1 IF)) as (L3 & _ & C3 & _ & M3 & _).
+    destruct Hrec as (r & Hr & Er0).
+    assert (E1 : bd s1' b = set b_rhsNodes (fun _ => []) (bd s b)).
+    { unfold s1', updb, bd. cbn. rewrite lookup_alter. change (binds s1) with (binds s). rewrite Hr. reflexivity. }
+    rewrite A1, A2, A3, C3, M3, L3, E1. auto.
+  Qed.
 
   Local Lemma cvB_same n v : has s n -> n <> S b -> consistent_valB s' n v = consistent_valB s n v.
   Proof.
@@ -1991,7 +2255,9 @@ Section Assemble.
     - destruct (decl (nd s n)) as [|a [|]]; try reflexivity. rewrite Hv by left. reflexivity.
     - destruct (bb_main _ HB n b0 K) as (En & _ & _).
       assert (Hb0 : b0 <> b) by (intros ->; apply Hne; exact En).
-      rewrite (S'bd b0 Hb0). destruct (b_rhs (bd s b0)) as [r|] eqn:Er; [|reflexivity].
+      assert (Hs0 : is_Some (binds s !! b0)).
+      { pose proof (p_kinds s P n Hn) as Kk. rewrite K in Kk. apply Kk. }
+      rewrite (S'bd b0 Hb0 Hs0). destruct (b_rhs (bd s b0)) as [r|] eqn:Er; [|reflexivity].
       rewrite Hv; [reflexivity|]. apply (bb_rhs_decl s HB n b0 r K Er).
   Qed.
 
@@ -2001,7 +2267,10 @@ Section Assemble.
   Local Lemma lhs_match_same b' : b' <> b -> nkind (nd s b') = KBindLhs b' -> has s b' ->
     matchesOK s b' = true -> matchesOK s' b' = true.
   Proof.
-    intros Hne Kb Hb' Hm. unfold matchesOK in *. rewrite (S'bd b' Hne).
+    intros Hne Kb Hb' Hm. unfold matchesOK in *.
+    assert (Hsb' : is_Some (binds s !! b')).
+    { pose proof (p_kinds s P b' Hb') as Kk. rewrite Kb in Kk. apply Kk. }
+    rewrite (S'bd b' Hne Hsb').
     assert (Hl : has s (b_lhs (bd s b'))).
     { apply (io_decl _ (p_ids _ P) b'). destruct (bb_lhs _ HB b' b' Kb) as [_ ->]. left. }
     rewrite (S'valueOf _ Hl).
@@ -2009,9 +2278,10 @@ Section Assemble.
     assert (Hp : tplain true (select (b_cases (bd s b')) (valueOf s (b_lhs (bd s b')))) = true).
     { apply select_tplain. unfold bd. rewrite Hr. apply (TP b' r Hr). }
     apply (matches_mono (next s + 64)); [pose proof Hnext_le; lia|].
-    apply (matches_old _ s s' b' _ _ _ true Hp); [|exact Hm].
-    intros m Hmm _. destruct (S'old m Hmm) as (A1&A2&A3&A4). repeat split; try assumption.
-    intros Hbk. apply A4. intros ->. rewrite Hkmain in Hbk. discriminate.
+    apply (matches_old _ s s' b' _ _ _ true Hp); [| |exact Hm].
+    - intros m Hmm _. destruct (S'old m Hmm) as (A1&A2&A3&A4). repeat split; try assumption.
+      intros Hbk. apply A4. intros ->. rewrite Hkmain in Hbk. discriminate.
+    - intros m b1 Hmm Km. apply S'read. pose proof (p_kinds s P m Hmm) as Kk. rewrite Km in Kk. apply Kk.
   Qed.
   Local Lemma S'match_b : matchesOK s' b = true.
   Proof.
@@ -2109,7 +2379,7 @@ Section Assemble.
       { destruct (decide (next s1' <= n < next s3)%nat) as [|Hold]; [assumption|exfalso].
         unfold has in Hn'. rewrite (if_old _ _ _ F n) in Hn' by lia. apply Hn.
         change (has s1' n) in Hn'. unfold s1' in Hn'. rewrite has_updb in Hn'. unfold s1 in Hn'. rewrite has_upd in Hn'. exact Hn'. }
-      destruct (if_new _ _ _ F n Hnew) as (k0 & d & v & E3 & _ & _ & Hsh).
+      destruct (if_new _ _ _ F n Hnew) as (k0 & d & v & E3 & _ & Hsh & _).
       assert (Hne : n <> S b) by (intros ->; apply Hn, Hhasmain).
       destruct (U_from3 n) as (A1 & _ & A3 & A4). rewrite (nd_lookup _ _ _ E3) in A1, A3, A4.
       rewrite (shape_node_ext n (fresh_node k0 d (Some b) v) (nd s' n)); [exact Hsh|..].
@@ -2118,13 +2388,27 @@ Section Assemble.
       + rewrite (S'proj value) by reflexivity. exact A3.
   Qed.
 
-  Local Lemma C_tplain : Tplain s'.
+  Local Lemma C_cases : CF s s'.
   Proof.
-    intros b' r Hr. rewrite (proj1 S'fields) in Hr. destruct (decide (b' = b)) as [->|Hne].
+    intros Q HQ HA b' r' Hr. rewrite (proj1 S'fields) in Hr. destruct (decide (b' = b)) as [->|Hne].
     - destruct U_bdb as (_ & Ec & _). unfold bd in Ec. rewrite Hr in Ec. cbn in Ec. rewrite Ec.
-      destruct Hrec as (r1 & Hr1 & ->). apply (TP b r1 Hr1).
-    - rewrite (U_binds b' Hne) in Hr. apply (TP b' r Hr).
+      destruct Hrec as (r1 & Hr1 & ->). apply (HA b r1 Hr1).
+    - rewrite (U_binds3 b' Hne) in Hr. destruct (if_bd _ _ _ (proj1 IF) b' Hne) as [E|[E _]].
+      + rewrite E, (S1'_binds b' Hne) in Hr. apply (HA b' r' Hr).
+      + destruct IF3 as (_ & NQ & M).
+        destruct (nth_in_or_default (Z.to_nat (x mod Z.of_nat (length (b_cases r0)))) (b_cases r0) TNil) as [Hin|Hd].
+        * apply (NQ Q HQ) with (b1 := b'); [|exact Hne|exact Hr|exact E]. unfold select.
+          destruct Hrec as (r1 & Hr1 & Er). pose proof (HA b r1 Hr1) as Hall. rewrite Er in Hin.
+          rewrite forallb_forall in Hall. rewrite Er. apply Hall, Hin.
+        * (* the default case [TNil]: nothing was built *)
+          exfalso. assert (Es : select (b_cases r0) x = TNil) by exact Hd.
+          assert (E3 : s3 = s1').
+          { pose proof Einst as Ei. rewrite Es in Ei. cbn in Ei. injection Ei as <- _. reflexivity. }
+          rewrite E3 in Hr. congruence.
   Qed.
+
+  Local Lemma C_tplain : Tplain s'.
+  Proof. exact (Tplain_CF s s' C_cases TP). Qed.
 
   Local Lemma C_done y : isDone s' y = true -> inGraph (nd s' y) = true -> y <> b ->
     has s y /\ isDone s y = true /\ inGraph (nd s y) = true /\ nkind (nd s' y) = nkind (nd s y).
@@ -2132,14 +2416,6 @@ Section Assemble.
     intros Hd Hgy Hyb. destruct (done_old y Hyb Hd) as [E|[E1 E2]]; [congruence|].
     assert (Hy : has s y) by (apply has_inGraph, E1). split; [exact Hy|]. split; [exact E2|]. split; [exact E1|].
     apply (S'old y Hy).
-  Qed.
-
-  Local Lemma C_cases : CF s s'.
-  Proof.
-    intros b' r' Hr. rewrite (proj1 S'fields) in Hr. destruct (decide (b' = b)) as [->|Hne].
-    - destruct U_bdb as (_ & Ec & _). unfold bd in Ec. rewrite Hr in Ec. cbn in Ec.
-      destruct Hrec as (r1 & Hr1 & E1). exists r1. split; [exact Hr1|]. rewrite Ec, E1. reflexivity.
-    - rewrite (U_binds b' Hne) in Hr. eauto.
   Qed.
 
   Lemma assemble : (LInvC s' imm /\ Tplain s') /\ imm = None /\ stabNum s' = stabNum s /\ CF s s' /\
